@@ -17,8 +17,11 @@ package main
 
 import (
 	"sort"
+	"runtime"
 	"strconv"
 	"strings"
+	"sync"
+	"sync/atomic"
 
 	"verifharness/internal/drv"
 
@@ -95,6 +98,46 @@ func (d *retainedDrv) Step(line string) string {
 			return "bad-op"
 		}
 		return showList(d.st.GetMatchedMessages(t))
+	case len(f) >= 3 && f[0] == "cmatch":
+		// `cmatch :<filter> :<filter> …`: the lookups run CONCURRENTLY (one goroutine per filter, 200 rounds each; readers share
+		// the store's read lock) and every answer is compared with the answer of the same lookup made alone
+		var fs []string
+		for _, a := range f[1:] {
+			t, ok := arg(a)
+			if !ok {
+				return "bad-op"
+			}
+			fs = append(fs, t)
+		}
+		alone := make([]string, len(fs))
+		for i, t := range fs {
+			alone[i] = showList(d.st.GetMatchedMessages(t))
+		}
+		var bad int32
+		var wg sync.WaitGroup
+		for i, t := range fs {
+			wg.Add(1)
+			go func(i int, t string) {
+				defer wg.Done()
+				defer func() {
+					if recover() != nil {
+						atomic.StoreInt32(&bad, 1)
+					}
+				}()
+				for r := 0; r < 200; r++ {
+					if showList(d.st.GetMatchedMessages(t)) != alone[i] {
+						atomic.StoreInt32(&bad, 1)
+						return
+					}
+					runtime.Gosched()
+				}
+			}(i, t)
+		}
+		wg.Wait()
+		if bad != 0 {
+			return "concurrent-lookups-differ"
+		}
+		return strings.Join(alone, " | ")
 	case len(f) == 1 && f[0] == "iter":
 		var ms []*gmqtt.Message
 		d.st.Iterate(func(m *gmqtt.Message) bool {
